@@ -110,6 +110,12 @@ func runHistoryCase(c Case) Result {
 		return r
 	}
 	r.Compile = "ok"
+	if len(c.Vars) > 0 {
+		if err := e.RegisterVars(c.Vars); err != nil {
+			r.Impl = "X register " + err.Error()
+			return r
+		}
+	}
 	str0 := e.String()
 	ast0 := rootWire(e)
 	var others []*jsonata.Expr
@@ -130,6 +136,9 @@ func runHistoryCase(c Case) Result {
 		}
 		got := evalOutcome(e, deepCopyJSON(in))
 		fresh, _ := jsonata.Compile(c.Expr)
+		if len(c.Vars) > 0 {
+			fresh.RegisterVars(deepCopyJSON(interface{}(c.Vars)).(map[string]interface{}))
+		}
 		want := evalOutcome(fresh, deepCopyJSON(in))
 		r.Hist = append(r.Hist, got.wire)
 		same := got.wire == want.wire || usesVolatile(c.Expr) ||
@@ -142,6 +151,9 @@ func runHistoryCase(c Case) Result {
 			// map iteration order. Accept when some fresh evaluation reports the same error.
 			for k := 0; k < 16 && !same; k++ {
 				f2, _ := jsonata.Compile(c.Expr)
+				if len(c.Vars) > 0 {
+					f2.RegisterVars(deepCopyJSON(interface{}(c.Vars)).(map[string]interface{}))
+				}
 				same = evalOutcome(f2, deepCopyJSON(in)).wire == got.wire
 			}
 		}
